@@ -30,12 +30,12 @@ theorem parseSgr_report (cfg : Cfg) (st : PState) (intro : Bytes) (hi : IsIntro 
   rcases hi with rfl | rfl
   · have : sgrRun cfg st {} ([27, 91] ++ (60 :: (showInt b ++ (59 :: (showInt x ++ (59 :: (showInt y ++ fin :: rest))))))) 0
         = sgrRun cfg st { state := 2 } (60 :: (showInt b ++ (59 :: (showInt x ++ (59 :: (showInt y ++ fin :: rest)))))) 2 := by
-      simp [sgrRun, sgrStep]
+      simp [sgrRun, sgrStepV, sgrKnown, sgrStep]
     rw [this, sgrRun_body cfg st b x y hb hx hy fin hf rest 2]
     simp [sgrFinish, sgrEvent, sgrState]
   · have : sgrRun cfg st {} ([0x9b] ++ (60 :: (showInt b ++ (59 :: (showInt x ++ (59 :: (showInt y ++ fin :: rest))))))) 0
         = sgrRun cfg st { state := 2 } (60 :: (showInt b ++ (59 :: (showInt x ++ (59 :: (showInt y ++ fin :: rest)))))) 1 := by
-      simp [sgrRun, sgrStep]
+      simp [sgrRun, sgrStepV, sgrKnown, sgrStep]
     rw [this, sgrRun_body cfg st b x y hb hx hy fin hf rest 1]
     simp [sgrFinish, sgrEvent, sgrState]
 
